@@ -333,6 +333,41 @@ macro_rules! declare_storage_n {
                     }
                 )*
 
+                /// Verification hook: a read-only dump of the internal bookkeeping, as
+                /// (version, len, capacity, free_head, slots[0..capacity], entities[0..len]).
+                #[cfg(gecs_verif)]
+                pub fn verif_dump(&self) -> (u32, usize, usize, u32, Vec<(u32, u32)>, Vec<(u32, u32)>) {
+                    unsafe {
+                        // SAFETY: Slots are valid up to capacity, and entities up to len.
+                        let slots = self.slots.slice(self.capacity);
+                        let entities = self.entities.slice(self.len);
+                        (
+                            self.version.get().get(),
+                            self.len,
+                            self.capacity,
+                            self.free_head.verif_raw(),
+                            slots.iter().map(|slot| slot.verif_raw()).collect(),
+                            entities.iter().map(|entity| entity.into_any().raw()).collect(),
+                        )
+                    }
+                }
+
+                /// Verification hook: presets the version of every slot, and of the archetype.
+                /// Only permitted while empty, so that no live entity handle is affected.
+                #[cfg(gecs_verif)]
+                pub fn verif_preset_versions(&mut self, slot_version: u32, arch_version: u32) {
+                    assert!(self.len == 0, "verif_preset_versions requires an empty storage");
+                    let slot_version = std::num::NonZeroU32::new(slot_version).unwrap();
+                    let arch_version = std::num::NonZeroU32::new(arch_version).unwrap();
+                    unsafe {
+                        // SAFETY: Slots are valid up to capacity.
+                        for slot in self.slots.slice_mut(self.capacity).iter_mut() {
+                            slot.verif_set_version(slot_version);
+                        }
+                    }
+                    self.version = ArchetypeVersion::verif_new(arch_version);
+                }
+
                 /// Resolves the slot index and data index for a given entity.
                 /// Both indices are guaranteed to point to valid corresponding cells.
                 #[inline(always)]
